@@ -167,6 +167,11 @@ def finish(pid, tag, cases, oracle_viols, rule, extra=None):
         viols += cv
     cov = summarize(cases, rule, extra)
     cov.update(st)
+    # evaluations = every execution of the implementation in this run; the exact-scalar cases (the ones also run through the model) are counted separately
+    mult = {"f64_cases": 1, "long_f64_runs": 1, "fading_pairs": 2, "f64_vs_exact_runs": 2, "f32_runs": 2, "float_cases_bit_exact": 1, "f64_pow2_pairs": 2,
+            "f64_chain_groups": 3, "heap_measurements": 1, "f64_schedules": 1, "coq_spec_cases": 0}
+    cov["evaluations_exact_scalar_with_model"] = cov["evaluations"]
+    cov["evaluations"] = cov["evaluations"] + sum(mult[k_] * int(cov.get(k_, 0)) for k_ in mult if isinstance(cov.get(k_, 0), int))
     return {"coverage": cov, "violations": viols}
 
 # ====================================================================================== per property
